@@ -21,6 +21,10 @@ HIST_RULE = ("hist driver: seeded random histories (login, proxied request with 
              "(mode x forward-auth x inactivity x ACR x token lifetime); distinct = (mode, op, cookie state, store state, provider plan, status, forwarded, token written, provider contacted, post state); "
              "non-trivial = a session cookie was presented. ")
 
+SCHED_RULE = ("sched driver: 2-3 concurrent requests on one session (manual refresh, proxied request with refresh due, session info, logout, local logout, front-channel logout), each on its own replica over one miniredis, "
+              "executed under explicit schedules: all schedules with at most two preemptions of 9 process pairs (A runs i steps, B runs j, then round-robin), random 3-process schedules, crash at every step of the refresher, "
+              "and the in-memory store with the provider call as scheduling point; distinct = (store, processes, executed trace); non-trivial = more than one process actually interleaves.")
+
 def _merge(*ds):
     out = {}
     for d in ds:
@@ -81,6 +85,54 @@ PROPS = {
         'technique': 'Lean 4 proof of the acceptance decision + really-signed fault lattice through the real callback',
         'trusted': ["H-JWS", "jwx v2.1.4 verify/validate contract (Appendix C)"],
         'assumptions': ["H-JWS"],
+    },
+    'C05': {
+        'proofs': ['Ww.Proofs.C05'],
+        'gen_sections': [],
+        'drivers': [{'name': 'sched'}, {'name': 'hist'}],
+        'reasons': ['C05.'],
+        'class_fields': _merge(HIST_CLASS, {'sched': ['store', 'procs', 'crash', 'trace', 'statuses', 'exists']}),
+        'nontrivial': _merge(HIST_NT, {'sched': lambda f: ',' in f.get('schedule', '')}),
+        'rule': SCHED_RULE + " hist driver: every logout variant is followed by a request with the old cookie.",
+        'level_text': "Proof: in the small-step model (one transition = one store command / lock script / provider call of one process; any number of refreshing, reading and logging-out processes; any schedule; crashes) a deleted "
+                      "session entry is never re-created (the refresh write-back is update-only-if-present in ONE step), so for every schedule pre ++ [delete of a logout] ++ post the entry is absent at the end and at every later moment; "
+                      "a request that had not reached the provider by then never does. The model is tied to the real handlers step by step by executing explicit schedules on real replicas over one miniredis (pre-hook = scheduling point).",
+        'level_note': "Trusted: Lean kernel; Redis command atomicity and redislock scripts (through miniredis); one store command is one atomic step (goroutine scheduling inside a command is not observable); cookie clearing is C14.",
+        'technique': 'Lean 4 inductive invariant over an interleaving model (unbounded processes and schedule length) + deterministic schedule executor on real replicas',
+        'trusted': ["Redis/miniredis command semantics (Appendix C)", "H-AEAD"],
+        'assumptions': ["store commands are atomic steps"],
+    },
+    'C07': {
+        'proofs': ['Ww.Proofs.C07'],
+        'gen_sections': [],
+        'drivers': [{'name': 'sched'}],
+        'reasons': ['C07.'],
+        'class_fields': {'sched': ['store', 'procs', 'crash', 'trace', 'statuses', 'exists']},
+        'nontrivial': {'sched': lambda f: ',' in f.get('schedule', '')},
+        'rule': SCHED_RULE,
+        'level_text': "Proof: inductive invariant (7 fields) over the small-step model for any number of processes and any schedule: mutual exclusion between lock and unlock; under the lock the re-read token is the provider's current one; "
+                      "hence every presentation is a grant, the presented generations are strictly increasing - no refresh token is presented twice - and the stored pair is the provider's current pair whenever nobody is in the critical section. "
+                      "Within the lock lease and crash-free (the property's proviso). Tied step by step on Redis; on the in-memory store the provider log and the statuses are checked by the Spec (the provider call is its only scheduling point).",
+        'level_note': "Trusted: Lean kernel; redislock obtain/release = SET NX PX / delete-if-token (modelled as one step each, tied by the executor); lease not expiring while held (H-LEASE); the cooldown outlasts a schedule (schedules run in milliseconds).",
+        'technique': 'Lean 4 inductive invariant (grind) over an interleaving model + deterministic schedule executor; provider-side presentation log as observation',
+        'trusted': ["H-LEASE", "redislock contract"],
+        'assumptions': ["H-LEASE"],
+    },
+    'C10': {
+        'proofs': ['Ww.Proofs.C10'],
+        'gen_sections': [],
+        'drivers': [{'name': 'sched'}, {'name': 'hist'}],
+        'reasons': ['C10.'],
+        'class_fields': _merge(HIST_CLASS, {'sched': ['store', 'procs', 'crash', 'trace', 'statuses', 'exists']}),
+        'nontrivial': _merge(HIST_NT, {'sched': lambda f: True}),
+        'rule': SCHED_RULE + " Crash cases kill the refreshing / logging-out process at each of its steps, let the other process run, let the lock lease pass (FastForward) and read TTLs, lock key and the session endpoint. hist driver: TTL after every step of every history.",
+        'level_text': "Proof: TTL invariant over the small-step model with crash events at arbitrary points (an update never drops the expiry and never creates a key); a finishing refresh removes its lock; a crashed holder blocks others only until "
+                      "the lease passes, after which the next process obtains the lock; a session left stale by a crash between the provider's answer and the write-back is rejected cleanly (401, nothing written, lock released). "
+                      "TTL values (<= creation + max lifetime, never extended) are checked on the implementation after every step of every history and schedule.",
+        'level_note': "Trusted: Lean kernel; Redis expiry semantics via miniredis (SET XX KEEPTTL, PX leases, FastForward); crash = the process's connection goes dead at a store-command boundary.",
+        'technique': 'Lean 4 invariant with crash events + crash-point enumeration on real replicas (TTL / lock key / follow-up request)',
+        'trusted': ["Redis/miniredis expiry semantics"],
+        'assumptions': ["crash happens at a store-command boundary"],
     },
     'C06': {
         'proofs': ['Ww.Proofs.C06'],
